@@ -496,13 +496,8 @@ def _loop_(i, fmap, fcond):
     src = i.operands[0].signextend(64)
     loc = pc + src
     loc = loc[0:opdsz].zeroextend(64)
-    counter = cx if i.misc["adrsz"] else ecx
-    REX = i.misc["REX"]
-    W = 0
-    if REX:
-        W = REX[0]
-    if W == 1:
-        counter = rcx
+    # the count register is selected by the address size: rcx, or ecx with a 67 prefix
+    counter = ecx if i.misc["adrsz"] else rcx
     cond = fcond(zf, counter)
     fmap[counter] = fmap(counter) - 1
     fmap[rip] = tst(fmap(cond), loc, pc)
